@@ -1,1 +1,7 @@
 import Gossamer.Props.C04
+open Gossamer.C04
+#print axioms C04_atNode
+#print axioms C04_getFromDB
+#print axioms C04_getFromDB_stored
+#print axioms C04_absent
+#print axioms C04_empty
